@@ -699,6 +699,21 @@ func (t *repGen) stmtFor(v *repVar) {
 		default:
 			t.add("arrO-size", "{{ "+x+".size }}{{ "+x+" | size }}{{ "+x+" | map: \"n\" | join }}", false, x)
 		}
+	case "arrOS":
+		switch g.Intn(6) {
+		case 0:
+			t.add("arrOS-sort-natural-key", "{{ "+x+" | sort_natural: \"name\" | map: \"name\" | join: \",\" }}", false, x)
+		case 1:
+			t.add("arrOS-sort-key", "{{ "+x+" | sort: \"name\" | map: \"name\" | join: \",\" }}", false, x)
+		case 2:
+			t.add("arrOS-map", "{{ "+x+" | map: \"tag\" | join: \",\" }}|{{ "+x+" | map: \"tag\" | uniq | size }}", false, x)
+		case 3:
+			t.add("arrOS-loop", "{% for o in "+x+" %}{{ o.name }}:{{ o.tag | upcase }};{% endfor %}", false, x)
+		case 4:
+			t.add("arrOS-sort-natural-key-first", "{% assign so = "+x+" | sort_natural: \"tag\" %}{{ so.first.tag }}{{ so.last.tag }}{{ so | size }}", false, x)
+		default:
+			t.add("arrOS-index-cmp", "{{ "+x+"[0].name }}{% if "+x+"[1].name == \"Bob\" %}B{% endif %}{% if "+x+".last.tag contains \"z\" %}Z{% endif %}", false, x)
+		}
 	case "arrA":
 		switch g.Intn(4) {
 		case 0:
@@ -892,6 +907,12 @@ func genRepCase(g *RNG) *repGen {
 		add("ao", "arrO", arr(2+g.Intn(2), func() *V {
 			return VStrMap(SKV("name", VStr(g.Pick([]string{"ann", "bob", "cy", "Di"}))), SKV("n", rsmall()))
 		}), repCtx{ptrOK: true, widthsOK: true})
+	}
+	if g.Bool() {
+		// objects whose values are all strings: the typed representation map[string]string fits
+		add("aos", "arrOS", arr(2+g.Intn(3), func() *V {
+			return VStrMap(SKV("name", VStr(g.Pick([]string{"ann", "Bob", "cy", "Di", "eve", "Al"}))), SKV("tag", VStr(g.Pick([]string{"x", "Y", "z"}))))
+		}), repCtx{ptrOK: true})
 	}
 	if g.Bool() {
 		add("aa", "arrA", arr(2+g.Intn(2), func() *V { return arr(1+g.Intn(3), rsmall) }), repCtx{ptrOK: true, widthsOK: true})
